@@ -66,7 +66,10 @@ def build_pps(p):
     from commonroad.common.solution import CostFunction, PlanningProblemSolution, VehicleModel, VehicleType
     from commonroad.scenario.trajectory import Trajectory
     states = [build_state(p["kind"], p["t0"] + i, vec, p.get("pos_dtype", "float")) for i, vec in enumerate(p["states"])]
-    traj = Trajectory(p["t0"], states)
+    if p.get("order"):
+        # the state LIST is given in another order than the time steps (state i keeps time step t0 + i)
+        states = [states[j] for j in p["order"]]
+    traj = Trajectory(states[0].time_step, states)
     return PlanningProblemSolution(p["id"], VehicleModel[p["model"]], VehicleType(p["vtype"]), CostFunction[p["cost"]], traj)
 
 
